@@ -185,9 +185,43 @@ def _parts(t, shift, out, depth=0):
     return False
 
 
-def int_decode(t):
-    """("be"|"le", (base, lo, hi)) when t is an unsigned integer read from consecutive bytes; None otherwise"""
+def int_decode(t, N=None):
+    """("be"|"le"|"ne", (base, lo, hi)) when t is an unsigned integer read from consecutive bytes; None otherwise.
+    With a Normalizer N also `bytes.iter().fold(0, |acc, b| (acc << 8) | b)` (big-endian; over `.rev()` little-endian)"""
     x = t
+    if N is not None and _is(t, "Iterator::fold") and len(t[2]) == 3 and t[2][1] == ("const", 0):
+        src, rev = t[2][0], False
+        while _is(src, "Iterator::rev", "slice::iter", "IntoIterator::into_iter", "Iterator::copied", "Iterator::cloned") and src[2]:
+            rev = rev != _is(src, "Iterator::rev")
+            src = src[2][0]
+        acc, byte = ("bound", 0), ("bound", 1)
+        body = N.norm(N.apply(t[2][2], (acc, byte), 0))
+        parts = []
+
+        def terms(y, shift):
+            if isinstance(y, tuple) and len(y) == 3 and y[0] == "field" and y[2] == "0" and isinstance(y[1], tuple) and y[1][:1] == ("binop",):
+                y = y[1]
+            if isinstance(y, tuple) and len(y) == 4 and y[0] == "binop" and y[1] in ("BitOr", "Add", "AddWithOverflow", "BitXor"):
+                return terms(y[2], shift) and terms(y[3], shift)
+            if isinstance(y, tuple) and len(y) == 4 and y[0] == "binop" and y[1] in ("Shl", "ShlUnchecked") and _const(y[3]) is not None:
+                return terms(y[2], shift + _const(y[3]))
+            if isinstance(y, tuple) and len(y) == 4 and y[0] == "binop" and y[1] in ("Mul", "MulWithOverflow"):
+                for a_, b_ in ((y[2], y[3]), (y[3], y[2])):
+                    k = _const(b_)
+                    if k is not None and k > 0 and k & (k - 1) == 0:
+                        return terms(a_, shift + k.bit_length() - 1)
+                return False
+            while isinstance(y, tuple) and y and (y[0] == "cast" or (_is(y, "Into::into", "From::from", "Deref::deref", "Clone::clone") and len(y[2]) == 1)):
+                y = y[-1] if y[0] == "cast" else y[2][0]
+            if y in (acc, byte):
+                parts.append((y, shift))
+                return True
+            return False
+        if terms(body, 0) and sorted(parts, key=str) == sorted([(acc, 8), (byte, 0)], key=str):
+            v = _close(view(src))
+            if v[2] is not None:
+                return ("le" if rev else "be", v)
+        return None
     while isinstance(x, tuple) and x and (x[0] == "cast" or (_is(x, "Into::into", "From::from", "usize::from", "u32::from", "u64::from") and len(x[2]) == 1)):
         inner = x[-1] if x[0] == "cast" else x[2][0]
         if isinstance(inner, tuple) and inner and inner[0] == "elem_at":
